@@ -386,3 +386,14 @@ def wrong_length_C(d, kw):
             if n != int(t[0][1:4]):
                 return True
     return False
+
+
+def has_bitfield(d):
+    """Does the definition contain a bitfield (at any depth)?"""
+    for v in d.values():
+        if isinstance(v, tuple) and isinstance(v[1], dict):
+            if isinstance(v[0], str) and v[0] in BITF:
+                return True
+            if has_bitfield(v[1]):
+                return True
+    return False
